@@ -464,6 +464,42 @@ static void p_graph(uint64_t) {
   quiesce();
 }
 
+// more subgraphs than the per-type allocator cache holds (kMaxCache = 8): every node allocator is either
+// cached or freed when its subgraph goes away; repeated, with both node types, partially rebuilt
+template <class G>
+static void graphManySubgraphs(uint64_t seed) {
+  for (int round = 0; round < 3; ++round) {
+    G g;
+    std::vector<typename G::SubgraphType*> subs;
+    int nsub = 10 + (int)((seed + (uint64_t)round) % 4);
+    for (int s = 0; s < nsub; ++s)
+      subs.push_back(&g.addSubgraph());
+    typename G::NodeType* prev = nullptr;
+    LT payload(round);
+    for (int s = 0; s < nsub; ++s)
+      for (int k = 0; k < 3; ++k) {
+        auto& n = subs[(size_t)s]->addNode([payload]() { (void)payload.use(); });
+        if (prev)
+          n.dependsOn(*prev);
+        prev = &n;
+      }
+    dispenso::SingleThreadExecutor st;
+    st(g);
+    if (round == 1) {
+      subs[2]->clear();
+      subs[2]->addNode([payload]() { (void)payload.use(); });
+      setAllNodesIncomplete(g);
+      st(g);
+    }
+  }
+}
+static void p_graph_many(uint64_t seed) {
+  graphManySubgraphs<dispenso::Graph>(seed);
+  quiesce();
+  graphManySubgraphs<dispenso::BiPropGraph>(seed);
+  quiesce();
+}
+
 static void p_misc(uint64_t) {
   {
     dispenso::AsyncRequest<LT> req;
@@ -557,6 +593,7 @@ int main(int argc, char** argv) {
       {"loops", p_loops},
       {"loops_error", p_loops_error},
       {"graph", p_graph},
+      {"graph_many", p_graph_many},
       {"misc", p_misc},
       {"timed", p_timed},
   };
